@@ -181,7 +181,7 @@ def run_reorg_case(case, res, prop):
     shape = case['shape']
     failures = []
     w = world.World(reorg_limit=limit, activation=act, prefetch=case.get('prefetch', 100),
-                    chunk_size=case.get('chunk'))
+                    chunk_size=case.get('chunk'), immediate_daemon=not case.get('slow_daemon'))
     final_blocks = None
     try:
         w.daemon.set_chain(base.blocks)
@@ -296,6 +296,41 @@ def run_reorg_case(case, res, prop):
                 if not fired:
                     res.count('midbatch_switch_after_end')
                     w.daemon.set_chain(y.blocks)
+                if not w.at_daemon_tip():
+                    w.poll()
+            elif shape == 'midbatch-short':
+                # the daemon extends on branch X; at scheduler step k - possibly between two of
+                # the block processor's daemon calls - it switches to a branch that is SHORTER
+                # than X (heights just asked about no longer exist); later that branch grows
+                if case.get('first_fork'):
+                    # ... or the daemon is first on a longer FORK (a reorganisation is under
+                    # way when it switches to the shorter branch)
+                    x = make_branch(base_recipes, case['first_fork'],
+                                    ['conflict'] + ['new'] * (case['first_fork'] + 1), b'F', base, act)
+                else:
+                    x = sim_for(base_recipes + case['ext'], b'', act)
+                y = make_branch(base_recipes, case['d'], case['branch'], b'Y', base, act)
+                short = y.blocks[:base.height + 1 - case.get('below', 0)]
+                final_blocks = y.blocks
+                w.daemon.set_chain(x.blocks)
+                w.daemon.add_known(x.blocks)
+                w.daemon.add_known(y.blocks)
+                k = case['k']
+                fired = []
+
+                def hook(n):
+                    if n == k and not fired:
+                        fired.append(n)
+                        w.daemon.set_chain(short)
+                w.caught_up_event.clear()
+                if not w.loop.fire_timer():
+                    raise Broken('no polling timer')
+                w.run_until_caught_up(step_hook=hook)
+                res.maxi('midbatch_short_steps', w.sync_steps)
+                if not fired:
+                    res.count('midbatch_switch_after_end')
+                w.daemon.set_chain(y.blocks)
+                w.poll()
                 if not w.at_daemon_tip():
                     w.poll()
             else:
